@@ -529,6 +529,15 @@ func (e *Env) RunOp(proc, i int, s Step) (res OpResult) {
 		if err != nil {
 			res.Err = err.Error()
 		}
+	case "test":
+		rt := action.NewReleaseTesting(cfg)
+		rt.Namespace = RelNS
+		rt.Timeout = timeout
+		rel, err := rt.Run(RelName)
+		res.Rel = rel
+		if err != nil {
+			res.Err = err.Error()
+		}
 	default:
 		res.Err = "unknown op " + s.Op
 	}
